@@ -55,6 +55,10 @@ def run(tier, seed, rep):
             for mask in itertools.product([0, 1], repeat=n):
                 cands.append(fieldless(rng, did, n, mask))
                 did += 1
+        # neighbouring variants whose canonical names coincide still get one entry each
+        cands.append(enum(did, [variant("Kb"), variant("KB"), variant("Mb")], style="lowercase")); did += 1
+        cands.append(enum(did, [variant("Low"), variant("Medium", ser=["High"]), variant("High"), variant("Max")])); did += 1
+        cands.append(enum(did, [variant("A", ts="same"), variant("B", ts="same"), variant("C", dis=True, ts="same"), variant("D", ts="same")], prefix="p")); did += 1
         for k in range(sz["sampled"]):
             n = rng.randint(1, 10)
             cands.append(fieldless(rng, did, n, [1 if rng.random() < 0.25 else 0 for _ in range(n)]))
